@@ -1,6 +1,7 @@
 (* C19 — Division conserves molecules and volume; lineage records are consistent (splitters). *)
 From Coq Require Import ZArith Reals List Bool Arith.
-From BS Require Import Base.Arith Model.Queue Model.Splitters Proofs.SplitProofs.
+From BS Require Import Base.Arith Model.Queue Model.Term Model.Propensity Model.Interface Model.Rules Model.Random Model.SSA Model.Splitters Model.Lineage
+                       Proofs.SplitProofs Proofs.SSAProofs Proofs.LineageProofs.
 Import ListNotations.
 Local Open Scope R_scope.
 
@@ -38,12 +39,41 @@ Theorem C19_binomial_is_bernoulli_sum :
   (indicator_count n p u pos <= n)%nat.
 Proof. exact binomial_is_bernoulli_sum. Qed.
 
-(* Not mechanised (C19_partial): that such a sum has the Binomial(n,p) law; the lineage worklist
-   (daughters start at the mother's division time from such a partition, mutual links, forest) and
-   "every reported row was simulated, with positive volume" are decided by the harness oracle and
-   the stream replay of py_partition. *)
+(* The single-cell loop of a lineage simulation (coq/Model/Lineage.v: reactions, volume / division / death rules, volume /
+   division / death events; every stream, fuel, grid, cell state).
+
+   Reals: a cell that starts with a positive volume reports only positive volumes, one per row -- also when no reaction
+   can fire, when it divides or dies, and when it does so before anything was recorded. *)
+Theorem C19_cell_volumes_positive :
+  forall (l : lin R) eps9 eps7 fuel ts t_cur t_init V V_init x0 u pos st, 0 < V ->
+  lssa_simulate ArithR eps9 eps7 fuel l ts t_cur t_init V V_init x0 u pos = Done st ->
+  Forall (fun v => 0 < v) (ls_vols st) /\ length (ls_rows st) = length (ls_vols st).
+Proof. exact lssa_volumes_positive. Qed.
+
+(* Any arithmetic: every reported (row, volume) pair was actually produced by the loop: the volume is the initial one or a
+   value that passed the loop's positivity test, and the row is a rule pass (with that volume) over a state the cell was in. *)
+Theorem C19_cell_rows_were_simulated :
+  forall F (A : Arith F) eps9 eps7 (l : lin F) fuel ts t_cur t_init V V_init x0 u pos st,
+  lssa_simulate A eps9 eps7 fuel l ts t_cur t_init V V_init x0 u pos = Done st ->
+  exists seen, In V seen /\ (forall v, In v seen -> v = V \/ fleb A v (f0 A) = false) /\
+               length (ls_rows st) = length (ls_vols st) /\ Forall2 (row_ok A l seen) (ls_rows st) (ls_vols st).
+Proof. exact @lssa_rows_ok. Qed.
+
+(* Without rules on species: consecutive rows of a cell are linked by reaction paths from the state it was born with. *)
+Theorem C19_cell_rows_are_paths :
+  forall F (A : Arith F) eps9 eps7 (l : lin F), sm_rules (ln_sim l) = [] ->
+  forall fuel ts t_cur t_init V V_init x0 u pos st,
+  lssa_simulate A eps9 eps7 fuel l ts t_cur t_init V V_init x0 u pos = Done st -> chain A (ln_sim l) x0 (ls_rows st).
+Proof. exact @lssa_rows_are_paths. Qed.
+
+(* Not mechanised (C19_partial): that a Bernoulli sum has the Binomial(n,p) law; the lineage worklist (queue of cells,
+   schnitz links, truncated grids of daughters), rule / event noise (normal draws) -- decided by the harness on simulated
+   lineages. *)
 
 Print Assumptions C19_general_splitter.
 Print Assumptions C19_lineage_splitter.
 Print Assumptions C19_perfect_binomial_splitter.
 Print Assumptions C19_binomial_is_bernoulli_sum.
+Print Assumptions C19_cell_volumes_positive.
+Print Assumptions C19_cell_rows_were_simulated.
+Print Assumptions C19_cell_rows_are_paths.
